@@ -10,7 +10,7 @@ if [ ! -d $D/verif ]; then
   git -C /verif worktree add -q --detach $D/verif HEAD || exit 2
   git -C /repo worktree add -q --detach $D/repo HEAD || exit 2
 fi
-git -C $D/verif checkout -q --detach $(git -C /verif rev-parse HEAD) || exit 2
+git -C $D/verif checkout -q -- . ; git -C $D/verif checkout -q --detach $(git -C /verif rev-parse HEAD) || exit 2
 git -C $D/repo checkout -q --detach $(git -C /repo rev-parse HEAD) && git -C $D/repo checkout -q -- . || exit 2
 export VERIF_REPO=$D/repo
 (cd $D/verif && ./setup.sh > $D/setup.out 2>&1) || { echo "setup failed"; tail -5 $D/setup.out; exit 2; }
